@@ -158,15 +158,16 @@ def check_key_function(ctx: Ctx) -> None:
             und = "too many interpretations"
             continue
         for trace, rv, notes in runs:
-            if not isinstance(rv, LocalFn):
-                und = und or f"key_function does not return a local function ({rv!r})"
+            from ..modelinterp import BoundOp
+            if not isinstance(rv, (LocalFn, BoundOp)):
+                und = und or f"key_function does not return a callable the model follows ({rv!r})"
                 continue
             it2 = Interp(prog, ind_cls, lambda *_: None, call_model, max_depth=6, max_traces=16)
             it2.strict_index = True
             it2.fn_stack = [kf]
             it2.trace, it2.choices, it2._pos, it2.undecided = [], [], 0, []
             try:
-                val = it2.call_local(rv, [ind], {}, 1, {})
+                val = it2.call_local(rv, [ind], {}, 1, {}) if isinstance(rv, LocalFn) else it2.apply(rv, [ind], {}, 1)
             except Exception as ex:   # _Return escaping a raise inside the model
                 val = UNKNOWN
             raised = [e.name for e in it2.trace if e.kind == "raise"]
